@@ -174,6 +174,12 @@ def run(ctx):
         if k == 'all' and (eo[1] or 0) > 1 and False:
             continue
         cases.append(make_case(cm.G(k, ps, (1, 1)), '1.1'))
+    # the wildcard in a nested group (or a repeated one), the competing element after it
+    nested = [(ns, wo, go, eo) for ns in ('##any', '##targetNamespace') for wo in [(0, None), (0, 2), (1, 1)]
+              for go in [(1, 1), (0, 1), (0, 2)] for eo in [(1, 1), (0, 1), (1, 2)]]
+    for ns, wo, go, eo in (nested if not ctx.quick() else rng.sample(nested, 20)):
+        cases.append(make_case(cm.G('seq', [cm.G('seq', [cm.W(ns, wo)], go), cm.E('b', eo)], (1, 1)), '1.1'))
+        cases.append(make_case(cm.G('seq', [cm.E('c', (0, 1)), cm.G('seq', [cm.G('choice', [cm.W(ns, wo), cm.E('d')], (1, 1))], go), cm.E('b', eo)], (1, 1)), '1.1'))
     nopen = 40 if ctx.quick() else 400
     for i in range(nopen):
         m = cm.random_model(rng, version='1.1', max_leaves=4, p_wild=0.0, allow_all=False)
